@@ -427,11 +427,7 @@ Section Invariants.
           | DNull => Some (CVal JNull, [], [])
           | _ =>
             match lookup_type s n with
-            | Some (TObject _ _) =>
-                match d with
-                | DObj _ flds => exec_sels s frags cv f n flds sels
-                | _ => Some (raise_here CauseType)
-                end
+            | Some (TObject _ _) => exec_sels s frags cv f n (data_fields d) sels
             | Some (TInterface _) | Some (TUnion _) =>
                 match d with
                 | DObj rt flds =>
@@ -560,6 +556,7 @@ Section Invariants.
         * destruct (complete_leaf (TEnum vals) l) as [j|] eqn:Ecl; inversion H; subst; [|apply raise_ok].
           split; [constructor|]. split; [|constructor].
           eapply sh_leaf; [exact El | eapply complete_leaf_json; exact Ecl].
+        * eapply HO; [reflexivity | | exact H]. left. split; [eapply is_object_of_lookup; exact El | reflexivity].
       + (* DObj *)
         destruct t as [n|it|t']; [| inversion H; subst; apply raise_ok | eapply HN; [reflexivity | exact H]].
         destruct (lookup_type s n) as [td|] eqn:El; [|inversion H; subst; apply raise_ok].
@@ -572,7 +569,8 @@ Section Invariants.
       + (* DList *)
         destruct t as [n|it|t']; [| eapply HL; [reflexivity | exact H] | eapply HN; [reflexivity | exact H]].
         destruct (lookup_type s n) as [td|] eqn:El; [|inversion H; subst; apply raise_ok].
-        destruct td as [sc|vals|ofs ifs|ifs|ms|idefs ioo]; inversion H; subst; apply raise_ok.
+        destruct td as [sc|vals|ofs ifs|ifs|ms|idefs ioo]; try (inversion H; subst; apply raise_ok).
+        eapply HO; [reflexivity | | exact H]. left. split; [eapply is_object_of_lookup; exact El | reflexivity].
       + (* DRaise *)
         inversion H; subst. apply raise_ok.
   Qed.
@@ -783,8 +781,10 @@ Section FuelMono.
         destruct (complete s frags cv f t' sels DNull) as [o'|] eqn:Ecp; [|discriminate].
         rewrite (IHc f' Hle' _ _ _ _ Ecp). exact H.
       + destruct t as [n|it|t']; try exact H.
-        destruct (complete s frags cv f t' sels (DLeaf l)) as [o'|] eqn:Ecp; [|discriminate].
-        rewrite (IHc f' Hle' _ _ _ _ Ecp). exact H.
+        * destruct (lookup_type s n) as [[| |ofs ifs|ifs|ms|idefs ioo]|]; try exact H.
+          apply IHs; assumption.
+        * destruct (complete s frags cv f t' sels (DLeaf l)) as [o'|] eqn:Ecp; [|discriminate].
+          rewrite (IHc f' Hle' _ _ _ _ Ecp). exact H.
       + destruct t as [n|it|t']; try exact H.
         * destruct (lookup_type s n) as [[| |ofs ifs|ifs|ms|idefs ioo]|]; try exact H.
           -- apply IHs; assumption.
@@ -793,6 +793,8 @@ Section FuelMono.
         * destruct (complete s frags cv f t' sels (DObj tn flds)) as [o'|] eqn:Ecp; [|discriminate].
           rewrite (IHc f' Hle' _ _ _ _ Ecp). exact H.
       + destruct t as [n|it|t']; try exact H.
+        * destruct (lookup_type s n) as [[| |ofs ifs|ifs|ms|idefs ioo]|]; try exact H.
+          apply IHs; assumption.
         * destruct (complete_items (fun x => option_map (catch it) (complete s frags cv f it sels x)) items O)
             as [o'|] eqn:Ei; [|discriminate].
           assert (Hcf : forall x r,
@@ -860,13 +862,14 @@ Proof.
         try (destruct (in_int_range z)); discriminate.
     + destruct (complete_leaf (TEnum vals) l) as [j|] eqn:E; [|discriminate].
       inversion H; subst. destruct l; cbn in E; try discriminate. destruct (mem s0 vals); discriminate.
+    + eapply HS. exact H.
   - destruct t as [n|it|t']; intro H; try discriminate; [|exfalso; eapply HN; exact H].
     exfalso. destruct (lookup_type s n) as [[| |ofs ifs|ifs|ms|idefs ioo]|]; try discriminate.
     + eapply HS. exact H.
     + destruct (is_object s tn && possible s n tn); [eapply HS; exact H | discriminate].
     + destruct (is_object s tn && possible s n tn); [eapply HS; exact H | discriminate].
   - destruct t as [n|it|t']; intro H; [| |exfalso; eapply HN; exact H].
-    + destruct (lookup_type s n) as [[| | | | |]|]; discriminate.
+    + exfalso. destruct (lookup_type s n) as [[| | | | |]|]; try discriminate. eapply HS. exact H.
     + destruct (complete_items _ items O) as [[[[js|] es0] cs0]|]; discriminate.
 Qed.
 
